@@ -11,3 +11,22 @@ package expvar
 //@ use casketfile/contracts_verif.go:dispenser_api
 //@ use @verif/specs/stdlib.spec:stdlib
 //@ use @verif/specs/stdlib.spec:casket_api
+
+//@ unit expvar_handler frames=on props=C12 nilchecks=on filter=`expvar\.ExpVar\)\.ServeHTTP$|expvar\.expvarHandler$`
+//@ // C12: a request for the expvar resource is answered here (the next handler is not called, the handler reports "already
+//@ // written"); every other request is passed on once and the next handler's answer is returned with nothing sent here
+//@ use @verif/specs/stdlib.spec:handler_chain
+//@ extern (github.com/tmpim/casket/caskethttp/httpserver.Path).Matches
+//@   pure
+//@ // expvar.Do runs the callback once per published variable (the callback writes body text only)
+//@ extern expvar.Do
+//@   modifies ghost:bodyWrites
+//@   ensures bodyWrites >= old(bodyWrites)
+//@ func expvarHandler
+//@   requires w != nil
+//@   modifies ghost:bodyWrites
+//@   ensures [opening_and_closing_brace_at_least] bodyWrites >= old(bodyWrites) + 2 && hw == old(hw)
+//@ func (ExpVar).ServeHTTP
+//@   requires w != nil && r != nil && r.URL != nil && e.Next != nil
+//@   modifies ghost:nextCalls, ghost:nextRet, ghost:bodyWrites
+//@   ensures [answers_itself_or_passes_on_once] (nextCalls == old(nextCalls) && result0 == 0 && result1 == nil && bodyWrites >= old(bodyWrites) + 2) || (nextCalls == old(nextCalls) + 1 && result0 == nextRet && hw == old(hw) && bodyWrites == old(bodyWrites))
